@@ -148,6 +148,18 @@ fn run_case(lines: &[String], out: &mut impl Write) {
                     h.insert_source(LifeSrc { synth: w[1] == "lifesynth", token: None }, |_, _, _| {}).unwrap();
                     has_synth |= w[1] == "lifesynth";
                 }
+                // a bounded channel that is exactly full when the first dispatch processes it: the second dispatch finds an
+                // idle source (the channel must not have woken itself up)
+                "chanfull" => {
+                    let cap: usize = w.get(2).and_then(|x| x.parse().ok()).unwrap_or(2);
+                    let (tx, rx) = calloop::channel::sync_channel::<u8>(cap);
+                    for i in 0..cap {
+                        tx.try_send(i as u8).unwrap();
+                    }
+                    h.insert_source(rx, |_, _, _| {}).unwrap();
+                    keep.push(Box::new(tx));
+                    has_closed = true; // (the first dispatch has something to deliver: only its computed wait is judged)
+                }
                 "chanclosed" => {
                     let (tx, rx) = channel::<u8>();
                     h.insert_source(rx, |_, _, _| {}).unwrap();
